@@ -1027,7 +1027,8 @@ def D7(m, R):
             if widthv:
                 flags[widthv] = True
             try:
-                out = run_block([s_ for s_ in blk.body if s_ is not ext], flag_valuation(flags), visit)
+                gx = {'%s.group(%d)' % (var, k_): True for k_ in (1, 2, 3)}          # the width group is given (its role is checked by T9)
+                out = run_block([s_ for s_ in blk.body if s_ is not ext], flag_valuation(flags, gx), visit)
             except Undecided as ex:
                 R.undecided(f, blk, str(ex), construct=cons)
                 events = None
@@ -1055,6 +1056,8 @@ def D7(m, R):
             wv = widthv or '?'
             want = {'width': 'int(%s)' % wv, 'inplace': 'True', 'extend_formatting': ev}
             for k, v in want.items():
+                if k == 'width' and widthv is None and re.match(r'^int\(%s\.group\(\d\)\)$' % re.escape(var), got.get(k) or ''):
+                    continue
                 if got.get(k) != v:
                     problems.append('pad called with %s=%s, expected %s' % (k, got.get(k), v))
             fc = got.get('fillchar', '')
